@@ -1,5 +1,5 @@
 """C12 — SequOOL opens cells depth by depth within its harmonic budget."""
-from .. import configs
+from .. import configs, world
 from ..algorun import replay_algo, run_algo_task
 from ..world import QueryAfterRound
 from ..refs.sequool import SequOOLOracle, h_max_of
@@ -8,7 +8,8 @@ ID = "C12"
 LEVEL = "model_checking"
 RULE = ("SequOOL x {Binary 1-D, Kary(3) 1-D, DimensionBinary 2-D} x budgets n: every reward sequence in {0,1}^T / {0,1,-1}^T over the "
         "whole schedule plus a tail for n in {10,11,12} (E-full), and every script within k deviations of base scripts over the whole "
-        "schedule plus 3 tail rounds for n in 10..40 and 100 (E-dev; the quick tier takes a VERIF_SEED-rotated subset of n), plus E-sched: the whole schedule for every budget n in 41..800 (thorough: 2000; quick: every second n) on one reward script.  Every "
+        "schedule plus 3 tail rounds for n in 10..40 and 100 (E-dev; the quick tier takes a VERIF_SEED-rotated subset of n), plus E-sched: the whole schedule for every budget n in 41..800 (thorough: 2000; quick: every second n) on one reward script, "
+        "plus E-hmax: the depth bound of a freshly built SequOOL(n) for every budget n <= 20000 (thorough 60000) adjacent to a jump of floor(n/H_n) (and every 500th).  Every "
         "make_children call is an opening judged against the published schedule (root first, non-decreasing depth, floor(h_max/h) per "
         "depth, none beyond h_max, best unopened cell of the depth, children handed out once each in order, centre after exhaustion, "
         "recommendation unchanged).  distinct_nontrivial = executions reaching depth >= 2.")
@@ -53,7 +54,67 @@ def tasks(tier, seed):
     for lo in range(41, hi + 1, chunk):
         ns = [n for n in range(lo, min(lo + chunk, hi + 1)) if tier == "thorough" or (n + seed) % 2 == 0]
         ts.append({"kind": "sched", "label": "sched/%d" % lo, "ns": ns, "cost": 3 + lo // 20})
+    # E-hmax: the depth bound itself, for every budget next to a jump of floor(n / H_n) (the last budget with a value and the
+    # first with the next one: the budgets where an inexact H_n shows first) up to 20000 (thorough 60000)
+    top = 20000 if tier == "quick" else 60000
+    for lo in range(1, top, 2500):
+        ts.append({"kind": "hmax", "label": "hmax/%d" % lo, "lo": lo, "hi": min(lo + 2500, top), "cost": 2 + lo // 2500})
     return ts
+
+
+def _hmax_task(task):
+    import math
+    from ..world import Stats, seam
+    from ..core import ChoiceSource, HarnessError
+    from ..seams import ExpansionRecorder
+
+    st = Stats()
+    lo, hi = task["lo"], task["hi"]
+    H = 0.0
+    hs = {}
+    amb = set()
+    for n in range(1, hi + 2):
+        H += 1.0 / n
+        q = n / H
+        hs[n] = math.floor(q)
+        if abs(q - round(q)) < 1e-7 * q:
+            amb.add(n)  # n / H_n within rounding of an integer: either value is accepted
+    pc = configs.part_class("Binary", None)
+    sm = seam()
+    for n in range(max(lo, 2), hi):
+        if not (hs[n] != hs[n + 1] or hs[n] != hs[n - 1] or n % 500 == 0):
+            continue
+        if task.get("only_n") and n != task["only_n"]:
+            continue
+        sm.set_source(ChoiceSource([]))
+        ExpansionRecorder.ACTIVE = None
+        from PyXAB.algos.SequOOL import SequOOL
+
+        if world._GUARD:
+            world._GUARD.reset()
+        algo = SequOOL(n=n, domain=[[0.0, 1.0]], partition=pc)
+        try:
+            got = algo.h_max
+        except AttributeError:
+            raise HarnessError("cannot observe: SequOOL has no attribute 'h_max'")
+        st.executions += 1
+        st.states.add(hash(("hmax", n)))
+        st.transitions.add(hash(("hmax", n, "t")))
+        st.judged_rounds += 1
+        st.bump("hmax_budgets")
+        if n in amb:
+            st.ambiguous += 1
+            continue
+        st.nontrivial.add(hash(("hmax", n)))
+        st.outcomes.add(hash(("hmax", hs[n])))
+        if int(got) != hs[n]:
+            cfg = configs.cfg("SequOOL", "Binary", None, configs.BOXES["u1"], n=n)
+            st.violations.append({"config": cfg, "script": [n], "oracle": "C12.hmax",
+                                  "message": "SequOOL(n=%d) bounds its depth by h_max = %r; floor(n / H_n) = %d" % (n, got, hs[n]),
+                                  "details": {"n": n}, "task": dict(task, only_n=n), "T": 0})
+            if len(st.violations) >= 3:
+                break
+    return st
 
 
 def _sched_task(task):
@@ -95,10 +156,15 @@ def _nontrivial(ctx):
 def run_task(task):
     if task["kind"] == "sched":
         return _sched_task(task)
+    if task["kind"] == "hmax":
+        return _hmax_task(task)
     return run_algo_task(task, _mkq if task.get("query") else _mk, nontrivial=_nontrivial)
 
 
 def replay(task, script):
+    if task.get("kind") == "hmax":
+        st = _hmax_task(task)
+        return [{"oracle": v["oracle"], "message": v["message"], "details": v["details"]} for v in st.violations[:1]]
     return replay_algo(task, script, _mkq if task.get("query") else _mk)
 
 
